@@ -30,6 +30,10 @@ func blockingOp(ins ssa.Instruction) string {
 		case "(*sync.Mutex).Lock", "(*sync.RWMutex).Lock", "(*sync.RWMutex).RLock", "(*sync.WaitGroup).Wait", "(*sync.Cond).Wait", "time.Sleep",
 			"(*golang.org/x/sync/semaphore.Weighted).Acquire", "(*sync.Once).Do":
 			return ir.CallName(x)
+		case "(*os/exec.Cmd).StdoutPipe", "(*os/exec.Cmd).StderrPipe":
+			// reading a command pipe in our own code ends only when every holder of the pipe has closed it;
+			// WaitDelay bounds os/exec's own copying, not such a read
+			return "read of a command pipe (" + ir.CallName(x) + ")"
 		}
 	}
 	return ""
@@ -48,49 +52,60 @@ func c19(c *Ctx) {
 	fk := c.FK(safe)
 	tb := ir.NewTB(c.P.IsRepoFunc, c.P.FuncKey)
 
-	// locate the command creation and the run call
-	var cmdCalls, runCalls []*ssa.Call
-	Calls(safe, func(cc ssa.CallInstruction) {
-		call, ok := cc.(*ssa.Call)
-		if !ok {
-			return
-		}
-		n := ir.CallName(call)
-		if _, isPC := processCreators[n]; isPC {
-			cmdCalls = append(cmdCalls, call)
-		}
+	// the call tree of the checked entry point (logging excluded)
+	tree := c.Closure([]*ssa.Function{safe}, true, func(f *ssa.Function) bool {
+		pk := load_FuncPkgPath(f)
+		return pk == PkgUI
+	})
+	isRun := func(n string) bool {
 		switch n {
 		case "(*os/exec.Cmd).Output", "(*os/exec.Cmd).Run", "(*os/exec.Cmd).CombinedOutput", "(*os/exec.Cmd).Wait", "(*os/exec.Cmd).Start":
-			runCalls = append(runCalls, call)
+			return true
 		}
-	})
+		return false
+	}
+	// locate the command creation(s) and the run call(s) anywhere in that tree
+	var cmdCalls, runCalls []*ssa.Call
+	for _, fn := range c.SortedFuncs(tree) {
+		Calls(fn, func(cc ssa.CallInstruction) {
+			call, ok := cc.(*ssa.Call)
+			if !ok {
+				return
+			}
+			n := ir.CallName(call)
+			if _, isPC := processCreators[n]; isPC {
+				cmdCalls = append(cmdCalls, call)
+			}
+			if isRun(n) {
+				runCalls = append(runCalls, call)
+			}
+		})
+	}
 	if len(cmdCalls) == 0 || len(runCalls) == 0 {
-		c.R.Undecided("R-deadline", fk, fk, c.P.Pos(safe.Pos()), "no exec.Command*/run call found in SafeCmdExecution (anchor unresolved)")
+		c.R.Undecided("R-deadline", fk, fk, c.P.Pos(safe.Pos()), "no exec.Command*/run call found in the call tree of SafeCmdExecution (anchor unresolved)")
 		return
 	}
 
 	// ---- R-deadline -----------------------------------------------------------
-	for _, rc := range runCalls {
-		key := fk + "|" + ir.CallName(rc)
-		recv := tb.Of(rc.Call.Args[0], nil)
-		ok := recv.Op == "call:os/exec.CommandContext" && len(recv.Args) >= 2
-		detail := recv.String()
+	for _, cmdc := range cmdCalls {
+		key := c.FK(cmdc.Parent()) + "|" + ir.CallName(cmdc)
+		t := tb.Of(cmdc, nil)
+		ok := t.Op == "call:os/exec.CommandContext" && len(t.Args) >= 2
+		detail := t.String()
 		if ok {
-			ctx := recv.Args[0]
-			// ctx must be res0(call:context.WithTimeout(_, param timeout)) or WithDeadline
-			wt := ctx.Find(func(t *ir.Term) bool {
-				return t.Op == "call:context.WithTimeout" || t.Op == "call:context.WithDeadline"
+			ctx := t.Args[0]
+			wt := ctx.Find(func(x *ir.Term) bool {
+				return x.Op == "call:context.WithTimeout" || x.Op == "call:context.WithDeadline"
 			})
 			ok = wt != nil && ctx.Op == "res0" && len(wt.Args) == 2 && strings.HasPrefix(wt.Args[1].Op, "param:")
 			if ok {
-				// the parent context must not be something that never expires *and* the timeout is the function's parameter
 				detail = "cmd = exec.CommandContext(ctx, ...), ctx = " + ctx.String()
 			}
 		}
 		if ok {
-			c.R.Ok("R-deadline", key, fk, c.P.Pos(rc.Pos()), detail)
+			c.R.Ok("R-deadline", key, c.FK(cmdc.Parent()), c.P.Pos(cmdc.Pos()), detail)
 		} else {
-			c.R.Bad("R-deadline", key, fk, c.P.Pos(rc.Pos()), "the command that is run is not created by exec.CommandContext with a context from context.WithTimeout(_, timeout): "+detail)
+			c.R.Bad("R-deadline", key, c.FK(cmdc.Parent()), c.P.Pos(cmdc.Pos()), "the command is not created by exec.CommandContext with a context from context.WithTimeout(_, timeout parameter): "+detail)
 		}
 	}
 	c.R.Require("R-deadline", 1)
@@ -119,52 +134,68 @@ func c19(c *Ctx) {
 	c.R.Require("R-timeout", 1)
 	c.R.Stats["SafeCmdExecution_call_sites"] = ncallers
 
-	// ---- R-waitdelay ----------------------------------------------------------
-	for _, rc := range runCalls {
-		key := fk + "|" + ir.CallName(rc)
-		cmdv := ir.Resolve(rc.Call.Args[0])
-		isWD := func(ins ssa.Instruction) bool {
-			st, ok := ins.(*ssa.Store)
-			if !ok {
-				return false
-			}
-			fa, ok := st.Addr.(*ssa.FieldAddr)
-			if !ok || ir.Resolve(fa.X) != cmdv {
-				return false
-			}
-			if _, name, _ := ir.FieldName(fa); name != "WaitDelay" {
-				return false
-			}
-			if k, isConst := ir.ConstInt(st.Val); isConst && k <= 0 {
-				return false
-			}
-			return true
+	// ---- R-waitdelay (typestate over the call tree) -------------------------------
+	{
+		const unset, set = 0, 1
+		spec := ir.TSpec{
+			N: 2,
+			Instr: func(ins ssa.Instruction) []ir.Mask {
+				switch x := ins.(type) {
+				case *ssa.Store:
+					if fa, ok := x.Addr.(*ssa.FieldAddr); ok {
+						if o, name, _ := ir.FieldName(fa); name == "WaitDelay" && o != nil && o.Obj().Name() == "Cmd" {
+							if k, isConst := ir.ConstInt(x.Val); isConst && k <= 0 {
+								return ir.AllTo(2, unset)
+							}
+							return ir.AllTo(2, set)
+						}
+					}
+				case *ssa.Call:
+					if _, isPC := processCreators[ir.CallName(x)]; isPC {
+						return ir.AllTo(2, unset)
+					}
+				}
+				return nil
+			},
+			Callees: func(call ssa.CallInstruction) []*ssa.Function {
+				var out []*ssa.Function
+				for _, f := range c.Callees(call) {
+					if tree[f] {
+						out = append(out, f)
+					}
+				}
+				return out
+			},
+			NoReturn: func(ins ssa.Instruction) bool { return c.noReturnCall(ins) },
 		}
-		var starts []ir.Point
-		if def, ok := cmdv.(ssa.Instruction); ok {
-			starts = []ir.Point{ir.After(def)}
-		} else {
-			starts = []ir.Point{{Block: safe.Blocks[0]}}
-		}
-		reached := false
-		ir.Search{StopInstr: isWD}.Reach(starts, func(ins ssa.Instruction, _ *ssa.BasicBlock) {
-			if ins == ssa.Instruction(rc) {
-				reached = true
+		ts := ir.NewTS(spec)
+		bad := map[*ssa.Call]bool{}
+		seen := map[*ssa.Call]bool{}
+		ts.Run(safe, ir.Bit(unset), func(fn *ssa.Function, ins ssa.Instruction, m ir.Mask) {
+			call, ok := ins.(*ssa.Call)
+			if !ok || m == 0 || !isRun(ir.CallName(call)) {
+				return
+			}
+			seen[call] = true
+			if m.Has(unset) {
+				bad[call] = true
 			}
 		})
-		if reached {
-			c.R.Bad("R-waitdelay", key, fk, c.P.Pos(rc.Pos()), ir.CallName(rc)+" is reachable without a preceding non-zero store to Cmd.WaitDelay: a process holding the output pipe open blocks the call beyond the timeout")
-		} else {
-			c.R.Ok("R-waitdelay", key, fk, c.P.Pos(rc.Pos()), "Cmd.WaitDelay is set to a non-zero value on every path before "+ir.CallName(rc))
+		for _, rc := range runCalls {
+			key := c.FK(rc.Parent()) + "|" + ir.CallName(rc)
+			switch {
+			case bad[rc]:
+				c.R.Bad("R-waitdelay", key, c.FK(rc.Parent()), c.P.Pos(rc.Pos()), ir.CallName(rc)+" is reachable without a preceding non-zero store to Cmd.WaitDelay: a process holding the output pipe open blocks the call beyond the timeout")
+			case seen[rc]:
+				c.R.Ok("R-waitdelay", key, c.FK(rc.Parent()), c.P.Pos(rc.Pos()), "Cmd.WaitDelay is set to a non-zero value on every path before "+ir.CallName(rc))
+			default:
+				c.R.Undecided("R-waitdelay", key, c.FK(rc.Parent()), c.P.Pos(rc.Pos()), "run call not reached by the typestate pass")
+			}
 		}
 	}
 	c.R.Require("R-waitdelay", 1)
 
 	// ---- R-noblock / R-noassert over the call tree ---------------------------
-	tree := c.Closure([]*ssa.Function{safe}, true, func(f *ssa.Function) bool {
-		pk := load_FuncPkgPath(f)
-		return pk == PkgUI
-	})
 	nb, na := 0, 0
 	for _, fn := range c.SortedFuncs(tree) {
 		c.R.Note("functions", c.FK(fn))
